@@ -808,7 +808,7 @@ func TestC18(t *testing.T) {
 	seed := envInt("VERIF_SEED", 1)
 	col := NewCollector("C18", seed)
 	table := c18LoadTable(t)
-	n := 56
+	n := 96
 	if tier() == "thorough" {
 		n = 1000
 	}
